@@ -12,7 +12,8 @@
    (wildcard_shortcut_refuted) and keys outside the content model raise
    TypeNotFound (undeclared_key_refuted). *)
 From SV Require Import Lib.Base Fam.Schema C01.Marshal C01.Guard C01.MarshalProofs C01.Styles C01.StylesProofs.
-From SV Require Import C01.OptionalProofs C01.Request C01.RequestProofs.
+From SV Require Import C01.OptionalProofs C01.Request C01.RequestProofs C01.Leaves.
+From SV Require Import C06.Floats.
 
 (* 1. element level: unbounded nesting depth, width and list length *)
 Theorem marshal_conforms : forall S xstq v d anc,
@@ -128,6 +129,23 @@ Theorem toplevel_quirk_differs : forall S xstq d,
   exists n, marshal_param S xstq (FE d true false) VNone = MOk [n].
 Proof. exact toplevel_quirk_differs_l. Qed.
 Print Assumptions toplevel_quirk_differs.
+
+(* 2e. leaves of type xsd:float / xsd:double: the texts the reference expects for
+   the non-finite values are C06's lexical forms INF, -INF, NaN (pairwise
+   distinct, inside the lexical space of xsd:double); Python's spellings are not *)
+Theorem nonfinite_lexical_in_double_space : forall k, lex_double (nonfinite_lexical k) = true.
+Proof. exact nonfinite_lexical_in_double_space_l. Qed.
+Print Assumptions nonfinite_lexical_in_double_space.
+
+Theorem nonfinite_lexical_injective : forall a b, nonfinite_lexical a = nonfinite_lexical b -> a = b.
+Proof. exact nonfinite_lexical_injective_l. Qed.
+Print Assumptions nonfinite_lexical_injective.
+
+Theorem python_spellings_refuted :
+  lex_double [110; 97; 110]%N = false /\ lex_double [105; 110; 102]%N = false /\
+  lex_double [45; 105; 110; 102]%N = false.
+Proof. exact python_spellings_refuted_l. Qed.
+Print Assumptions python_spellings_refuted.
 
 (* 3. shape: children in schema order (inherited members first), each declared
    name repeated once per list item; attributes on their owner; xsi:type *)
